@@ -47,6 +47,20 @@ def cases(tier, seed):
                     "poses": [planted.POSES[int(x)] for x in rng.integers(0, len(planted.POSES), ncopies)],
                     "decoys": [] if minimal else [d for d in ("near_miss", "tangential", "mirror") if rng.integers(2)],
                     "schedule": SCHEDULES[(j // 3) % 4]})
+    # an almost linear three-atom pattern next to a strongly bent look-alike whose pair distances all agree within the tolerance
+    roomy = [c for c in planted.CELL_CLASSES if not c.endswith("minimal")]
+    for j in range(48 if tier == "quick" else 4000):
+        ncopies = int(rng.integers(1, 4))
+        out.append({"s": int(rng.integers(1 << 30)), "cell": roomy[j % len(roomy)], "pattern": "nearly_linear3", "atol": [0.05, 0.1, 0.05, 0.2][j % 4],
+                    "crossings": [int(x) for x in rng.integers(0, 4, ncopies)], "poses": [planted.POSES[int(x)] for x in rng.integers(0, len(planted.POSES), ncopies)],
+                    "decoys": ["bent", "bent"], "schedule": SCHEDULES[(j // 3) % 4]})
+    # one arm (leaf atom first, then the centre) of a planted unit as the search pattern: the occurrences within a unit share the
+    # centre atom, and units straddle the cell faces, so one occurrence may reach the centre in the home cell, its sibling through an image
+    for j in range(48 if tier == "quick" else 4000):
+        ncopies = int(rng.integers(1, 4))
+        out.append({"s": int(rng.integers(1 << 30)), "cell": roomy[j % len(roomy)], "pattern": ["twofold", "planar_d3h", "pyramid_c3v"][j % 3], "arm": True, "atol": [0.05, 0.1, 0.01, 0.05][j % 4],
+                    "crossings": [int(x) for x in rng.integers(1, 4, ncopies)], "poses": [planted.POSES[int(x)] for x in rng.integers(0, len(planted.POSES), ncopies)],
+                    "decoys": [], "schedule": SCHEDULES[(j // 3) % 4]})
     thin_classes = ["pair_hetero", "collinear3", "planar_d3h", "twofold", "flat_polygon", "planar_mirror_pair", "asym5", "pair_homo"]
     for j in range(80 if tier == "quick" else 6000):
         out.append({"s": int(rng.integers(1 << 30)), "thin": True, "pattern": thin_classes[j % len(thin_classes)], "atol": ATOLS[j % 4], "cell": "thin", "schedule": "real"})
@@ -120,7 +134,7 @@ def search_and_judge(ctx, st, case, pat, built, atol, hints=(None, None, None), 
     if ref["truncated"]:
         st.count("reference_truncated_skipped")
         return None
-    patoms = patterns.to_atoms(pat, unused_type=(case["s"] % 4 == 1))
+    patoms = patterns.to_atoms(pat, unused_type=(case["s"] % 4 == 1), table_order="reversed" if case["s"] % 4 == 3 else None)
     if case["s"] % 4 == 1:
         st.count("searches_with_a_pattern_whose_type_table_has_an_unused_entry")
     events.seed_all(case["s"])
@@ -243,10 +257,22 @@ def run_case(case, ctx):
         decoys.append("first_element_prefix")
     built = planted.build(rng, pat, case["cell"], atol, n_copies=len(case["crossings"]), crossings=case["crossings"], poses=case["poses"],
                           decoys=decoys, n_bystanders=int(rng.integers(0, 8)), n_distractors=int(rng.integers(0, 4)))
+    if case.get("arm"):
+        pat = dict(pat, cls=pat["cls"] + "/arm", elements=[pat["elements"][1], pat["elements"][0]], positions=np.array([pat["positions"][1], pat["positions"][0]], float),
+                   continuous_symmetry="line", chiral=False)
     r = search_and_judge(ctx, st, case, pat, built, atol)
     if r is None:
         return
     reported, ref, occ, gray = r
+    if case.get("arm"):
+        cnt = {}
+        for k in occ:
+            cnt[k[0]] = cnt.get(k[0], 0) + 1
+            cnt[k[1]] = cnt.get(k[1], 0) + 1
+        if any(v >= 2 for v in cnt.values()):
+            st.count("searches_whose_clear_occurrences_share_an_atom")
+        ctx.nontrivial(["arm", case["s"]])
+        return
     keys = {tuple(sorted(m)) for m in reported}
     cg = "ortho" if case["cell"].startswith("ortho") else "tri"
     straddle = False
@@ -297,6 +323,10 @@ def requirements(stats, tier):
     for cls in planted.CELL_CLASSES:
         if not any(h.startswith(cls + "/") for h in have):
             need.append("no accepted occurrence in cell class %s" % cls)
+    if stats.get("searches_whose_clear_occurrences_share_an_atom") < (20 if tier == "quick" else 2000):
+        need.append("searches whose clear occurrences share an atom: %d" % stats.get("searches_whose_clear_occurrences_share_an_atom"))
+    if stats.get("rejected_decoy.bent") < (10 if tier == "quick" else 1000):
+        need.append("bent look-alikes of an almost linear pattern rejected: %d" % stats.get("rejected_decoy.bent"))
     for d in ("mirror", "near_miss", "first_element_prefix"):
         if not stats.has("rejected_decoy", d):
             need.append("no rejected %s decoy observed" % d)
